@@ -475,6 +475,10 @@ def r7(tree, rep):
 
 
 def run(tree, rep, tier):
+    from .. import round9 as _r9
+    _r9.only_caller(tree, rep, "C20.R9", "src/wormhole/_dilation/manager.py", "Manager", "self._connector.got_hints", ("use_hints",),
+                    "peer hints reach the Connector on a path that does not go through use_hints' parse-and-drop-None step: an unrecognised hint "
+                    "(parse_hint gives None) is handed to Connector._use_hints, which raises inside the handler of a peer message")
     from .. import sharedstate
     sharedstate.check(tree, rep, "C20.R0")
     r1_r2(tree, rep)
